@@ -323,6 +323,14 @@ def check_c20(rep, tier):
         cases.append(["new n1n1k3/1P6/8/8/8/8/6p1/4K1N1 w - - 0 1", "obs", "playh " + mv, "obs", "pgn", "show"])
     for mv in ["g2g1q", "g2g1r", "g2g1b", "g2g1n", "g2h1q", "g2h1b", "g2f1n", "g2f1r"]:
         cases.append(["new 4k3/8/8/8/8/8/6p1/4KN1R b - - 0 1", "obs", "playh " + mv, "obs", "pgn", "show"])
+    # en-passant captures of both colours, inner and edge files, castling both ways, in one record each
+    for line in ["e2e4 a7a6 e4e5 d7d5 e5d6", "e2e4 a7a6 e4e5 f7f5 e5f6", "h2h4 a7a6 h4h5 g7g5 h5g6", "a2a4 h7h6 a4a5 b7b5 a5b6",
+                 "a2a3 d7d5 a3a4 d5d4 e2e4 d4e3", "a2a3 d7d5 a3a4 d5d4 c2c4 d4c3", "b2b3 h7h5 b3b4 h5h4 g2g4 h4g3", "h2h3 a7a5 h3h4 a5a4 b2b4 a4b3",
+                 "e2e4 e7e5 g1f3 g8f6 f1c4 f8c5 e1g1 e8g8", "d2d4 d7d5 b1c3 b8c6 c1f4 c8f5 d1d2 d8d7 e1c1 e8c8"]:
+        ops = ["new " + roots.START, "obs"]
+        for mv in line.split():
+            ops += ["playh " + mv, "obs", "pgn"]
+        cases.append(ops + ["show"])
     stats, kinds = Counter(), Counter()
     rust, lean = searchchk.run_pair(rep, cases)
     first = searchchk.correspondence(rep, "C20", cases, rust, lean, stats)
